@@ -14,13 +14,18 @@ def partsOf (j : Json) : Except String ModName := do
   let a ← j.getArr?
   jStrList a
 
+def loadsOf (j : Json) : Except String (List Str) :=
+  match j.getObjVal? "l" with
+  | .ok v => do let a ← v.getArr?; jStrList a
+  | .error _ => pure []
+
 def targetOf (j : Json) : Except String Target :=
   match j.getObjVal? "n" with
   | .ok v => do let s ← v.getStr?; pure (.name (toStr s))
   | .error _ =>
     match j.getObjVal? "p" with
-    | .ok v => do let a ← v.getArr?; let l ← jStrList a; pure (.pattern l)
-    | .error _ => pure .other
+    | .ok v => do let a ← v.getArr?; let l ← jStrList a; pure (.pattern l (← loadsOf j))
+    | .error _ => do pure (.other (← loadsOf j))
 
 def valOf (j : Json) : Except String Val :=
   match j with
@@ -70,12 +75,16 @@ def itemOf (j : Json) : Except String Item := do
       let s ← optStr a "as"
       pure (p, s)
     pure (.import_ als)
+  | "del" =>
+    let ns ← jStrList (← jarr j "names")
+    let nested ← jStrList (← jarr j "nested")
+    pure (.del ns nested)
   | "other" => pure .other
   | _ => throw s!"unknown item kind {k}"
 
 def variantOf (j : Json) : Except String Variant := do
   let v ← jobj j "variant"
-  pure ⟨← jbool v "d8", ← jbool v "d31"⟩
+  pure ⟨← jbool v "d8", ← jbool v "d31", ← jbool v "d53"⟩
 
 def errJ : Err → Json
   | .attributeError => Json.str "AttributeError"
@@ -102,7 +111,8 @@ def handle (j : Json) : Except String Json := do
     let items ← (← jarr j "items").toList.mapM itemOf
     let env : Env := ⟨self, isInit, fun m => ex.contains m⟩
     let extra := [("allGood", Json.bool (allState v items).1), ("bound", strsJ (bound items)),
-                  ("noD8", Json.bool (noD8Forms items)), ("defNames", strsJ (defNames items))]
+                  ("noD8", Json.bool (noD8Forms items)), ("delsSeen", Json.bool (delsSeen v items)),
+                  ("liveDefs", strsJ (liveDefs items)), ("defNames", strsJ (defNames items))]
     match exports v env items with
     | .ok ns => pure (Json.mkObj (("ok", strsJ ns) :: extra))
     | .error e => pure (Json.mkObj (("err", errJ e) :: extra))
